@@ -80,10 +80,8 @@ Definition exp_tail_ok (t : text) : bool :=
          end
   end.
 
-(* re.fullmatch(_NUMERAL, t): which kind of numeral [t] is, if any.  KFloat when a
-   fraction or an exponent is present. *)
-Definition numeral_kind (t : text) : option nkind :=
-  let t1 := strip_minus t in
+(* the part after the optional minus:  [0-9]+(\.[0-9]+)?([eE][+-]?[0-9]+)?  *)
+Definition numeral_unsigned (t1 : text) : option nkind :=
   match count_digits t1 with
   | O => None
   | n =>
@@ -98,6 +96,10 @@ Definition numeral_kind (t : text) : option nkind :=
           else if exp_tail_ok (c :: t3) then Some KFloat else None
       end
   end.
+
+(* re.fullmatch(_NUMERAL, t): which kind of numeral [t] is, if any.  KFloat when a
+   fraction or an exponent is present. *)
+Definition numeral_kind (t : text) : option nkind := numeral_unsigned (strip_minus t).
 
 (* ---------- the f-string of an int value ---------- *)
 
